@@ -54,10 +54,12 @@ func (a *ConstFuncParamAnnotator) VisitFuncDecl(decl *ast.FuncDecl) ast.VisitRes
 	if ast.IsGeneric(decl) {
 		for _, instantiations := range decl.Generic.Instantiations {
 			for _, instantiation := range instantiations {
-				a.VisitFuncDecl(instantiation)
+				// the body of an instantiation hangs on no statement of the module: visit it here
+				ast.VisitNode(a, instantiation, nil)
 			}
 		}
-		return ast.VisitRecurse
+		a.currentDecl = nil
+		return ast.VisitSkipChildren
 	}
 
 	// if the function is extern, we have to assume that the parameters are not const
